@@ -158,7 +158,9 @@ def run_wsgi(patterns, path):
 
     def mk(i):
         def app(environ, start_response):
-            log.append("ep %d %s" % (i, render_params(WRequest(environ).path_params)))
+            pp = WRequest(environ).path_params
+            log.append("ep %d %s" % (i, render_params(pp)))
+            _scribble(pp)      # what an endpoint does with ITS mapping must not reach the next request
             start_response("200 OK", [])
             return [b""]
         return app
@@ -167,19 +169,34 @@ def run_wsgi(patterns, path):
         router = WRouter(*[(p, mk(i)) for i, p in enumerate(patterns)])
     except Exception:  # noqa
         return "construct-error"
-    status = []
-    environ = {"REQUEST_METHOD": "GET", "PATH_INFO": path, "SCRIPT_NAME": "", "QUERY_STRING": "",
-               "SERVER_NAME": "t", "SERVER_PORT": "80", "wsgi.url_scheme": "http"}
+    results = []
+    for _ in range(2):        # the same request twice on one router: the answer may not depend on history
+        del log[:]
+        status = []
+        environ = {"REQUEST_METHOD": "GET", "PATH_INFO": path, "SCRIPT_NAME": "", "QUERY_STRING": "",
+                   "SERVER_NAME": "t", "SERVER_PORT": "80", "wsgi.url_scheme": "http"}
+        try:
+            for _ in router(environ, lambda s, h, e=None: status.append(s)):
+                pass
+        except Exception as exc:  # noqa
+            results.append(exc_name(exc))
+            continue
+        if len(log) == 1 and status == ["200 OK"]:
+            results.append(log[0])
+        elif not log and len(status) == 1 and status[0].startswith("404"):
+            results.append("404")
+        else:
+            results.append("?wsgi log=%s status=%s" % (log, status))
+    return results[0] if results[0] == results[1] else "REPEAT first %s second %s" % (results[0], results[1])
+
+
+def _scribble(params):
     try:
-        for _ in router(environ, lambda s, h, e=None: status.append(s)):
-            pass
-    except Exception as exc:  # noqa
-        return exc_name(exc)
-    if len(log) == 1 and status == ["200 OK"]:
-        return log[0]
-    if not log and len(status) == 1 and status[0].startswith("404"):
-        return "404"
-    return "?wsgi log=%s status=%s" % (log, status)
+        for k in list(params):
+            params[k] = "scribbled"
+        params["__extra__"] = "scribbled"
+    except Exception:  # noqa  (an immutable mapping is fine too)
+        pass
 
 
 def run_asgi(patterns, path):
@@ -187,7 +204,9 @@ def run_asgi(patterns, path):
 
     def mk(i):
         async def app(scope, receive, send):
-            log.append("ep %d %s" % (i, render_params(ARequest(scope, receive, send).path_params)))
+            pp = ARequest(scope, receive, send).path_params
+            log.append("ep %d %s" % (i, render_params(pp)))
+            _scribble(pp)
             await send({"type": "http.response.start", "status": 200, "headers": []})
             await send({"type": "http.response.body", "body": b""})
         return app
@@ -204,22 +223,29 @@ def run_asgi(patterns, path):
     async def send(msg):
         sent.append(msg)
 
-    scope = {"type": "http", "method": "GET", "path": path, "root_path": "", "query_string": b"", "headers": [],
-             "scheme": "http", "server": ("t", 80)}
-    coro = router(scope, receive, send)
-    try:
-        while True:
-            coro.send(None)
-    except StopIteration:
-        pass
-    except Exception as exc:  # noqa
-        return exc_name(exc)
-    starts = [m.get("status") for m in sent if m.get("type") == "http.response.start"]
-    if len(log) == 1 and starts == [200]:
-        return log[0]
-    if not log and starts == [404]:
-        return "404"
-    return "?asgi log=%s starts=%s" % (log, starts)
+    results = []
+    for _ in range(2):
+        del log[:]
+        del sent[:]
+        scope = {"type": "http", "method": "GET", "path": path, "root_path": "", "query_string": b"", "headers": [],
+                 "scheme": "http", "server": ("t", 80)}
+        coro = router(scope, receive, send)
+        try:
+            while True:
+                coro.send(None)
+        except StopIteration:
+            pass
+        except Exception as exc:  # noqa
+            results.append(exc_name(exc))
+            continue
+        starts = [m.get("status") for m in sent if m.get("type") == "http.response.start"]
+        if len(log) == 1 and starts == [200]:
+            results.append(log[0])
+        elif not log and starts == [404]:
+            results.append("404")
+        else:
+            results.append("?asgi log=%s starts=%s" % (log, starts))
+    return results[0] if results[0] == results[1] else "REPEAT first %s second %s" % (results[0], results[1])
 
 
 def parse_table(tok):
@@ -613,6 +639,9 @@ def oracle(line, out):
             return None
         if out == "construct-error":
             return "a table of well-formed routes cannot be constructed"
+        if "REPEAT" in out:
+            return ("the same request dispatched twice on one router is answered differently the second time (the first "
+                    "endpoint overwrote the parameter mapping it was given): %s" % out)
         if out.startswith("DIFF"):
             return "WSGI and ASGI routers disagree: %s" % out
         path = dec_text(a[2])
